@@ -53,6 +53,37 @@ def strings_with_exotic(v):
     return False
 
 
+JS_NOT_SEPARATORS = '\x0b\x0c\x1c\x1d\x1e\x85'      # Python splits on these, the browser does not
+_PLACE = {c: chr(0xE000 + i) for i, c in enumerate(JS_NOT_SEPARATORS)}
+_UNPLACE = {v: k for k, v in _PLACE.items()}
+
+
+def _tr(v, table):
+    if isinstance(v, str):
+        return ''.join(table.get(c, c) for c in v)
+    if isinstance(v, dict):
+        return {_tr(k, table): _tr(x, table) for k, x in v.items()}
+    if isinstance(v, (list, tuple)):
+        return [_tr(x, table) for x in v]
+    return v
+
+
+def python_with_js_splitting(kind, base, payload):
+    """what Python's patch / apply_decisions give on the same payload if the characters only Python treats as line
+    separators are not separators (they are replaced by private-use characters for the computation): the behaviour
+    finding F-splitlines describes; `None` if that computation fails"""
+    from checks import c02, c09
+    try:
+        b, p = _tr(base, _PLACE), _tr(payload, _PLACE)
+        if kind == 'patch':
+            r = c02.impl_patch(b, p)
+        else:
+            r = c09.impl_apply(b, p)
+        return _tr(r[1], _UNPLACE) if r[0] == 'ok' else None
+    except Exception:
+        return None
+
+
 def diff_leaves(x, y, path=()):
     """paths at which two JSON values differ"""
     if type(x) is not type(y):
@@ -126,6 +157,11 @@ def evaluate(ctx, job, meta, res):
         only_str = all(isinstance(a, str) and isinstance(b, str) for _, a, b in leaves)
         # the patched string (before or after) contains one of the separators the two languages treat differently
         exo = only_str and all(any(c in (a + b + base_at(p)) for c in EXOTIC) for p, a, b in leaves)
+        if exo and not any(c in json.dumps([got, want, base], ensure_ascii=False) for c in '\u2028\u2029'):
+            # sharper: the browser's result must be what Python computes once those characters are no separators
+            sim = python_with_js_splitting(kind, base, job.get('diff') if kind == 'patch' else job.get('decisions'))
+            exo = sim is not None and canon(sim) == canon(got)
+            ctx.count('F-splitlines simulation %s the browser result' % ('explains' if exo else 'does not explain'))
         astral = only_str and not exo and all(any(ord(c) > 0xFFFF for c in (a + b + base_at(p))) for p, a, b in leaves)
         ctx.violation('the TypeScript %s gives a different document than Python at %s' % ('patch' if kind == 'patch' else 'applyDecisions', [list(p) for p, _, _ in leaves][:3]),
                       dict(data, kind='ts-differs', got=enc(got), only_exotic_strings=exo, only_astral_strings=astral))
@@ -183,8 +219,13 @@ def run(ctx):
         metas.append({'kind': 'patch', 'want': ip[1], 'scenario': kinds})
         ctx.case('p' + canon(a) + vlib.canon_diff(r[1]), bool(r[1]))
     from checks import c09
-    for _ in range(ntriples):
-        b, l, r, kinds = gen_nb.any_triple(rng, minor_change=rng.random() < 0.3)
+    # scenarios whose decisions sit on line paths (character-level diffs inside one line, next to line-level decisions)
+    lineish = ['same-inline-edit-plus-insert', 'same-line', 'different-lines', 'two-conflict-regions']
+    for t in range(ntriples + (24 if ctx.tier == 'quick' else 400)):
+        if t < ntriples:
+            b, l, r, kinds = gen_nb.any_triple(rng, minor_change=rng.random() < 0.3)
+        else:
+            b, l, r, kinds = gen_nb.triple_scenario(rng, first=lineish[t % len(lineish) if t % 2 else 0])
         res = mergelib.run_merge(b, l, r, mergelib.Args('mergetool'))
         if res[0] != 'ok':
             continue
